@@ -47,6 +47,7 @@ class World:
         self.ghosts: List[Any] = []    # old generations / discarded-but-referenced agents, must never move
         self.saves: Dict[int, bytes] = {}
         self.names: Dict[int, str] = {}  # id(agent) -> stable printable name
+        self._refs: Dict[int, Any] = {}
         self._next_name = 0
         self.fps: Dict[int, Dict[str, Any]] = {}
         self.probes = A.probe_inputs(self.cfg, kernel.derive(case.get("cfg_seed", 0), "probes"))
@@ -58,7 +59,17 @@ class World:
         if k not in self.names:
             self.names[k] = f"a{self._next_name}"
             self._next_name += 1
+            # keep the object alive while it has a name: a freed agent's id() may be handed to a new one, and names are
+            # part of the event log (a run must be a pure function of the case, not of the allocator)
+            self._refs[k] = ag
         return self.names[k]
+
+    def forget(self, ag) -> str:
+        nm = self.name(ag)
+        self.names.pop(id(ag), None)
+        self._refs.pop(id(ag), None)
+        self.fps.pop(id(ag), None)
+        return nm
 
     def everyone(self) -> List[Any]:
         return self.pop + self.ghosts
@@ -246,6 +257,12 @@ def gen_c01(rng: random.Random, tier: str) -> Dict[str, Any]:
             ops.append({"op": "save_restore", "i": i, "path": rng.choice(["load", "load_checkpoint"])})
         else:
             ops.append({"op": "act", "i": i, "seed": s})
+    if cfg["algo"] in ("NeuralUCB", "NeuralTS"):
+        # acting is what changes a bandit's exploration matrix: make decisions as frequent as learn steps
+        for o in ops:
+            if o["op"] == "learn" and rng.random() < 0.5:
+                o["op"] = "act"
+        ops.insert(0, {"op": "act", "i": 0, "seed": rng.getrandbits(31)})
     return {"engine": "world", "prop": "C01", "cfg": cfg, "cfg_seed": rng.getrandbits(31), "pop": rng.choice([1, 2, 3]), "ops": ops}
 
 
@@ -316,6 +333,7 @@ def run_c01(ctx: kernel.Ctx, case: Dict[str, Any]) -> None:
             w.pop[slot] = res[0]
             if res[0] is not ag:
                 w.names[id(res[0])] = w.name(ag)
+                w._refs[id(res[0])] = res[0]
             ctx.log(w.name(ag), "mutate", {"kind": op["kind"], "mut": str(res[0].mut)})
             w.check_non_interference([ag, res[0]], f"op {oi}: {op['kind']} mutation of {w.name(ag)}")
             w.check_storage_disjoint()
@@ -341,8 +359,7 @@ def run_c01(ctx: kernel.Ctx, case: Dict[str, Any]) -> None:
             if len(w.pop) > 1:
                 ag = w.pick(op["i"])
                 w.pop.remove(ag)
-                w.fps.pop(id(ag), None)
-                nm = w.name(ag)
+                nm = w.forget(ag)
                 del ag
                 gc.collect()
                 ctx.log(nm, "discard")
@@ -361,7 +378,7 @@ def run_c01(ctx: kernel.Ctx, case: Dict[str, Any]) -> None:
             w.check_storage_disjoint()
         if len(w.ghosts) > 10:
             for g in w.ghosts[:-10]:
-                w.fps.pop(id(g), None)
+                w.forget(g)
             w.ghosts = w.ghosts[-10:]
         ctx.state((cfg["algo"], cfg["obs"], kind, len(w.pop), min(len(w.ghosts), 3)))
     ctx.nontrivial = n_clone > 0 and n_train_after + sum(1 for o in case["ops"] if o["op"] in ("learn", "mutate")) > 0
